@@ -167,6 +167,9 @@ func c15Num(id string) int {
 }
 
 func (w *c15World) gate(call *c15DeployCall) error {
+	if w.autoDeploy.Load() {
+		return nil // `raceprobe`: deployments succeed at once
+	}
 	select {
 	case w.deployCh <- call:
 	case <-time.After(4 * c15W()):
@@ -206,6 +209,13 @@ func (s *c15SrHandle) StartCheckpoint(ctx context.Context, id uint64) error {
 	s.w.ckStarts = append(s.w.ckStarts, [2]uint64{uint64(s.id), id})
 	cl := s.w.cluster
 	s.w.mu.Unlock()
+	if g := s.w.startGate.Load(); g != nil { // `tickb`/`tickc`: the StartCheckpoint calls park until `tickc`
+		g.arrived <- struct{}{}
+		select {
+		case <-g.release:
+		case <-time.After(8 * c15W()):
+		}
+	}
 	if cl != nil {
 		return cl.startCheckpoint(s.id, id)
 	}
@@ -220,7 +230,18 @@ type c15OpHandle struct {
 }
 
 func (o *c15OpHandle) Host() string { return "h" }
-func (o *c15OpHandle) ID() string   { return c15ID(o.id) }
+func (o *c15OpHandle) ID() string {
+	// `ticka`: the ticker callback is parked inside its first read of the assembly's operator ids (the job is
+	// quiescent while the gate is armed, so the first caller is the callback)
+	if g := o.w.idGate.Load(); g != nil && o.w.idGate.CompareAndSwap(g, nil) {
+		g.arrived <- struct{}{}
+		select {
+		case <-g.release:
+		case <-time.After(8 * c15W()):
+		}
+	}
+	return c15ID(o.id)
+}
 func (o *c15OpHandle) Deploy(ctx context.Context, req *workerpb.DeployOperatorRequest) error {
 	return o.w.gate(&c15DeployCall{kind: 'o', id: o.id, opReq: req, resp: make(chan error, 1)})
 }
@@ -329,6 +350,13 @@ type c15World struct {
 	handledCh chan struct{}
 	// real-worker cluster (c15_cluster.go): the deployments and checkpoint starts go to real worker processes
 	cluster *c15Cluster
+	// the ticker callback run in pieces (`ticka`/`tickb`/`tickc`): it is NOT a task of the job's queue
+	idGate     atomic.Pointer[c15Gate]
+	startGate  atomic.Pointer[c15Gate]
+	tickCb     *c15TickCb
+	autoDeploy atomic.Bool
+	loc        *c15Loc
+	heldIDs    []uint64 // snapshots completed while the storage is held, oldest first
 }
 
 // c15Loc serialises access to the in-memory storage location (the store writes and removes snapshot files from
@@ -336,9 +364,24 @@ type c15World struct {
 type c15Loc struct {
 	mu  sync.Mutex
 	loc locations.StorageLocation
+	// `holdpub`: writes of job snapshot files park until `relpub` (the store publishes a completed snapshot only
+	// after its file is written)
+	hold   atomic.Bool
+	pmu    sync.Mutex
+	parked []chan struct{}
 }
 
 func (l *c15Loc) Write(path string, data io.Reader) (string, error) {
+	if l.hold.Load() && strings.HasSuffix(path, ".snapshot") {
+		ch := make(chan struct{})
+		l.pmu.Lock()
+		l.parked = append(l.parked, ch)
+		l.pmu.Unlock()
+		select {
+		case <-ch:
+		case <-time.After(8 * c15W()):
+		}
+	}
 	l.mu.Lock()
 	defer l.mu.Unlock()
 	return l.loc.Write(path, data)
@@ -431,6 +474,7 @@ func newC15World(w, d, c0, bmax int) (*c15World, error) {
 		return nil, err
 	}
 	world.job = job
+	world.loc = loc
 	return world, nil
 }
 
@@ -743,6 +787,10 @@ func (w *c15World) storeCall(f func() error) string {
 	if _, _, _, still := st.VerifPendingC15(); still {
 		return res
 	}
+	if w.loc != nil && w.loc.hold.Load() { // completed; its file is not written yet, so it is not current yet
+		w.heldIDs = append(w.heldIDs, pid)
+		return fmt.Sprintf("%s pub=%d", res, pid)
+	}
 	deadline := time.Now().Add(c15W())
 	for time.Now().Before(deadline) {
 		if cur, ok := st.VerifCurrentIDC15(); ok && cur == pid {
@@ -751,6 +799,202 @@ func (w *c15World) storeCall(f func() error) string {
 		time.Sleep(100 * time.Microsecond)
 	}
 	return res + " timeout-publish"
+}
+
+type c15Gate struct {
+	arrived chan struct{}
+	release chan struct{}
+}
+
+type c15TickCb struct {
+	id    *c15Gate
+	start *c15Gate
+	done  chan struct{}
+	stage int
+}
+
+// releasePublications lets the held snapshot files be written, oldest first, and waits for each publication
+func (w *c15World) releasePublications() string {
+	ids := w.heldIDs
+	w.heldIDs = nil
+	if len(ids) == 0 {
+		w.loc.hold.Store(false)
+		return "nothing"
+	}
+	defer w.loc.hold.Store(false) // only after every held write has been seen parked
+	st := w.job.VerifStoreC15()
+	var names []string
+	for i, id := range ids {
+		// the write of snapshot i is parked by now or about to be (it is issued by a goroutine of the store)
+		deadline := time.Now().Add(c15W())
+		for {
+			w.loc.pmu.Lock()
+			n := len(w.loc.parked)
+			w.loc.pmu.Unlock()
+			if n > i {
+				break
+			}
+			if time.Now().After(deadline) {
+				return "timeout-write"
+			}
+			time.Sleep(50 * time.Microsecond)
+		}
+		w.loc.pmu.Lock()
+		close(w.loc.parked[i])
+		w.loc.pmu.Unlock()
+		deadline = time.Now().Add(c15W())
+		for {
+			if cur, ok := st.VerifCurrentIDC15(); ok && cur >= id {
+				break
+			}
+			if time.Now().After(deadline) {
+				return "timeout-publish"
+			}
+			time.Sleep(50 * time.Microsecond)
+		}
+		names = append(names, strconv.FormatUint(id, 10))
+	}
+	w.loc.pmu.Lock()
+	w.loc.parked = nil
+	w.loc.pmu.Unlock()
+	cur := "none"
+	if c, ok := st.VerifCurrentIDC15(); ok {
+		cur = strconv.FormatUint(c, 10)
+	}
+	return fmt.Sprintf("published %s cur=%s", strings.Join(names, ","), cur)
+}
+
+func (w *c15World) tickA() string {
+	alive := w.clk.alive()
+	if len(alive) == 0 {
+		return "stopped"
+	}
+	if w.tickCb != nil {
+		return "notick"
+	}
+	if !w.sync() {
+		return "timeout-sync"
+	}
+	t := alive[len(alive)-1]
+	cb := &c15TickCb{id: &c15Gate{arrived: make(chan struct{}, 1), release: make(chan struct{})}, done: make(chan struct{})}
+	w.idGate.Store(cb.id)
+	go func() {
+		defer close(cb.done)
+		defer func() { recover() }()
+		t.fn(&clocks.EveryContext{})
+	}()
+	select {
+	case <-cb.id.arrived:
+	case <-cb.done:
+		w.idGate.Store(nil)
+		return "timeout-tick-returned"
+	case <-time.After(c15W()):
+		w.idGate.Store(nil)
+		return "timeout-ticka"
+	}
+	w.tickCb = cb
+	ao, _ := w.job.VerifAssemblyC15()
+	return "read o=" + c15Join(c15Nums(ao))
+}
+
+func (w *c15World) tickB() string {
+	cb := w.tickCb
+	if cb == nil || cb.stage != 0 {
+		return "notick"
+	}
+	_, as := w.job.VerifAssemblyC15() // what the callback is about to read for StartCheckpoint (the job is quiescent)
+	cb.start = &c15Gate{arrived: make(chan struct{}, 64), release: make(chan struct{})}
+	w.startGate.Store(cb.start)
+	w.mu.Lock()
+	w.ckStarts = nil
+	w.mu.Unlock()
+	close(cb.id.release)
+	n := 0
+	deadline := time.After(c15W())
+	for n < len(as) {
+		select {
+		case <-cb.start.arrived:
+			n++
+		case <-cb.done: // CreateCheckpoint answered "in progress": the callback asked for a retry and returned
+			w.startGate.Store(nil)
+			w.tickCb = nil
+			w.mu.Lock()
+			k := len(w.ckStarts)
+			w.mu.Unlock()
+			if k == 0 {
+				return "retry"
+			}
+			return "timeout-tick-returned"
+		case <-deadline:
+			return "timeout-tickb"
+		}
+	}
+	cb.stage = 1
+	w.mu.Lock()
+	id := w.ckStarts[0][1]
+	w.mu.Unlock()
+	return fmt.Sprintf("created %d", id)
+}
+
+func (w *c15World) tickC() string {
+	cb := w.tickCb
+	if cb == nil || cb.stage != 1 {
+		return "notick"
+	}
+	close(cb.start.release)
+	w.startGate.Store(nil)
+	w.tickCb = nil
+	select {
+	case <-cb.done:
+	case <-time.After(c15W()):
+		return "timeout-tickc"
+	}
+	w.mu.Lock()
+	cs := w.ckStarts
+	w.mu.Unlock()
+	var srs []int
+	for _, c := range cs {
+		srs = append(srs, int(c[0]))
+	}
+	return fmt.Sprintf("ckpt %d s=%s", cs[0][1], c15Join(srs))
+}
+
+// raceProbe lets ticker callbacks run truly concurrently with membership tasks (for a run of the harness built with
+// -race: the callback reads j.assembly while the queue goroutine replaces it). The state afterwards is arbitrary.
+func (w *c15World) raceProbe(n int) string {
+	_, as := w.job.VerifAssemblyC15()
+	if len(as) == 0 || w.job.VerifStatusC15() != "Running" {
+		return "ok"
+	}
+	w.autoDeploy.Store(true)
+	stop := make(chan struct{})
+	var wg sync.WaitGroup
+	wg.Add(1)
+	go func() {
+		defer wg.Done()
+		defer func() { recover() }()
+		for {
+			select {
+			case <-stop:
+				return
+			default:
+			}
+			if alive := w.clk.alive(); len(alive) > 0 {
+				alive[len(alive)-1].fn(&clocks.EveryContext{})
+			}
+			time.Sleep(20 * time.Microsecond)
+		}
+	}()
+	node := &jobpb.NodeIdentity{Id: as[0], Host: "h"}
+	for i := 0; i < n; i++ {
+		w.job.HandleDeregisterSourceRunner(node)
+		w.job.HandleRegisterSourceRunner(node)
+		w.sync()
+		time.Sleep(50 * time.Microsecond)
+	}
+	close(stop)
+	wg.Wait()
+	return "ok"
 }
 
 func (w *c15World) tick() string {
@@ -972,8 +1216,16 @@ func (w *c15World) state() string {
 	if len(bats) > 0 {
 		bat = strings.Join(bats, ";")
 	}
-	return fmt.Sprintf("%s reg=o%s:s%s asm=o%s:s%s pend=%s cur=%s tick=%d rec=%s bat=%s", w.job.VerifStatusC15(),
-		c15Join(c15Nums(ro)), c15Join(c15Nums(rs)), c15Join(c15Nums(ao)), c15Join(c15Nums(as)), pend, cur, tick, rec, bat)
+	wr := "-"
+	if len(w.heldIDs) > 0 {
+		parts := make([]string, len(w.heldIDs))
+		for i, id := range w.heldIDs {
+			parts[i] = strconv.FormatUint(id, 10)
+		}
+		wr = strings.Join(parts, ",")
+	}
+	return fmt.Sprintf("%s reg=o%s:s%s asm=o%s:s%s pend=%s cur=%s wr=%s tick=%d rec=%s bat=%s", w.job.VerifStatusC15(),
+		c15Join(c15Nums(ro)), c15Join(c15Nums(rs)), c15Join(c15Nums(ao)), c15Join(c15Nums(as)), pend, cur, wr, tick, rec, bat)
 }
 
 var (
@@ -1057,6 +1309,19 @@ func c15Impl(c lib.Case) []string {
 			o = w.deployOK()
 		case len(a) == 2 && a[0] == "deployfail":
 			o = w.deployFail(atoi(a[1]))
+		case len(a) == 1 && a[0] == "holdpub":
+			w.loc.hold.Store(true)
+			o = "ok"
+		case len(a) == 1 && a[0] == "relpub":
+			o = w.releasePublications()
+		case len(a) == 1 && a[0] == "ticka":
+			o = w.tickA()
+		case len(a) == 1 && a[0] == "tickb":
+			o = w.tickB()
+		case len(a) == 1 && a[0] == "tickc":
+			o = w.tickC()
+		case len(a) == 2 && a[0] == "raceprobe":
+			o = w.raceProbe(atoi(a[1]))
 		case len(a) == 1 && a[0] == "tick":
 			o = w.tick()
 		case len(a) == 4 && a[0] == "ack" && a[1] == "s":
@@ -1121,7 +1386,30 @@ func c15Impl(c lib.Case) []string {
 			break
 		}
 	}
-	// let a start goroutine that is still parked at the gate finish
+	w.loc.hold.Store(false)
+	w.loc.pmu.Lock()
+	for _, ch := range w.loc.parked {
+		func() {
+			defer func() { recover() }()
+			close(ch)
+		}()
+	}
+	w.loc.pmu.Unlock()
+	// let a ticker callback and a start goroutine that are still parked at a gate finish
+	w.idGate.Store(nil)
+	w.startGate.Store(nil)
+	if cb := w.tickCb; cb != nil {
+		func() {
+			defer func() { recover() }() // already released
+			close(cb.id.release)
+		}()
+		if cb.start != nil {
+			func() {
+				defer func() { recover() }()
+				close(cb.start.release)
+			}()
+		}
+	}
 	for _, c := range w.batch {
 		c.resp <- fmt.Errorf("case over")
 	}
@@ -1150,6 +1438,7 @@ type c15Gen struct {
 	acked   map[string]bool
 	deploys int
 	tag     int
+	held    bool
 	stale   []string // unsent messages of the checkpoint that was in flight when the last fault struck
 }
 
@@ -1259,6 +1548,12 @@ func (g *c15Gen) deployOK() {
 		g.status = "Running"
 		g.deploys++
 		g.evaluate()
+		// a message of the abandoned checkpoint arrives after the deployment (a runner loop of the previous
+		// deployment still running, a late delivery): D56
+		if len(g.stale) > 0 && g.r.Chance(1, 3) {
+			g.add("%s", g.stale[0])
+			g.stale = g.stale[1:]
+		}
 	}
 }
 
@@ -1454,6 +1749,45 @@ func c15Gen1(r *lib.Rng, tier string, idx int) lib.Case {
 				g.noise()
 			}
 		case "Running":
+			if r.Chance(1, 12) && !g.pending { // the ticker callback in pieces, with tasks in between
+				g.add("ticka")
+				if r.Chance(1, 2) {
+					g.fault()
+					if r.Chance(1, 2) && g.status != "Running" {
+						g.reg(lib.Pick(r, []string{"o", "s"}), g.node())
+					}
+				}
+				g.add("tickb")
+				if r.Chance(1, 3) {
+					g.noise()
+				}
+				g.add("tickc")
+				if g.status == "Running" {
+					g.ck++
+					g.pending = true
+					g.acked = map[string]bool{}
+				} else {
+					g.ck++ // the callback may still have created a checkpoint (D57)
+				}
+				continue
+			}
+			if r.Chance(1, 14) && !g.pending && !g.held {
+				// a snapshot completes but its file is still being written when a member is lost; it is published
+				// while the new deployment is in flight (or after it)
+				g.add("holdpub")
+				g.held = true
+				g.tick()
+				g.sendRound(true)
+				g.fault()
+				for tries := 0; g.status != "Starting" && tries < 6; tries++ {
+					g.reg(lib.Pick(r, []string{"o", "s"}), g.node())
+				}
+				if r.Chance(2, 3) {
+					g.add("relpub")
+					g.held = false
+				}
+				continue
+			}
 			switch r.Intn(10) {
 			case 8, 9:
 				g.traffic()
@@ -1481,6 +1815,9 @@ func c15Gen1(r *lib.Rng, tier string, idx int) lib.Case {
 			}
 		}
 	}
+	if g.held {
+		g.add("relpub")
+	}
 	g.add("hbx %d %d", d, r.Range(0, 2*d+1))
 	g.add("hbx %d %d", d, d+r.Range(-1, 1))              // at, one second before, one second after the deadline
 	g.add("hbxn %d %d", d, lib.Pick(r, []int{-1, 0, 1})) // at, one nanosecond before / after
@@ -1505,6 +1842,38 @@ func c15Fixed() []lib.Case {
 		{Header: c15Header(2, 5, 0), Tags: []string{"refused-ack"}, Ops: []string{
 			"reg o 0", "reg o 1", "reg s 2", "reg s 3", "deployok", "tick", "ack s 2 1", "ack s 3 1", "bar 0 2 1", "dereg s 3", "reg s 4",
 			"bar 0 3 1", "st", "bar 0 3 1", "deployok", "tick", "ack s 2 2", "ack s 4 2", "bar 0 2 2", "bar 0 4 2", "bar 1 2 2", "bar 1 4 2", "st"}},
+		// D56 (open finding): one barrier of an older checkpoint right after the deployment wedges operator 0: the round
+		// of checkpoint 1 mismatches, ticks answer retry; only the next redeploy (sr 1 -> sr 2) clears it
+		{Header: c15Header(1, 5, 0), Tags: []string{"D56"}, Ops: []string{
+			"reg o 0", "reg s 1", "deployok", "bar 0 1 7", "st", "tick", "ack s 1 1", "bar 0 1 1", "tick", "bar 0 1 1", "st",
+			"dereg s 1", "reg s 2", "deployok", "tick", "ack s 2 2", "bar 0 2 2", "st"}},
+		// D56 with two runners: the half-aligned stale record parks its sender and rejects the other runner's barrier
+		{Header: c15Header(1, 5, 0), Tags: []string{"D56"}, Ops: []string{
+			"reg o 0", "reg s 1", "deployok", "tick", "ack s 1 1", "bar 0 1 1", "bar 0 1 1", "tick", "ack s 1 2", "bar 0 1 2", "st"}},
+		{Header: c15Header(2, 5, 0), Tags: []string{"D56"}, Ops: []string{
+			"reg o 0", "reg o 1", "reg s 2", "reg s 3", "deployok", "bar 0 2 7", "tick", "ack s 2 1", "ack s 3 1", "ev 0 2 5", "bar 0 3 1",
+			"bar 0 2 1", "bar 1 2 1", "bar 1 3 1", "st"}},
+		// D57 (open finding): the ticker callback is not a task. Operator 1 deregisters and operator 4 takes its place
+		// between the callback's read of the assembly and CreateCheckpoint: the job ends up Running on {0,4} with a pending
+		// snapshot that waits for operator 1, and every later tick answers retry
+		{Header: c15Header(2, 5, 0), Tags: []string{"D57"}, Ops: []string{
+			"reg o 0", "reg o 1", "reg s 2", "reg s 3", "deployok", "ticka", "dereg o 1", "reg o 4", "tickb", "tickc", "deployok", "st",
+			"tick", "ack s 2 1", "ack s 3 1", "bar 0 2 1", "bar 0 3 1", "bar 4 2 1", "bar 4 3 1", "tick", "st"}},
+		// the callback in pieces with nothing in between, and a pause inside it
+		{Header: c15Header(1, 5, 0), Tags: []string{"D57"}, Ops: []string{
+			"reg o 0", "reg s 1", "deployok", "ticka", "tickb", "tickc", "ack s 1 1", "bar 0 1 1", "ticka", "dereg s 1", "tickb", "tickc",
+			"st", "ticka", "reg s 2", "deployok", "ticka", "tickb", "tickb", "tickc", "tickc", "st"}},
+		// ticker callbacks truly concurrent with membership tasks (for the -race build; always answered ok)
+		{Header: c15Header(1, 5, 0), Tags: []string{"raceprobe"}, Ops: []string{"reg o 0", "reg s 1", "deployok", "raceprobe 40"}},
+		// one checkpoint per deployment: checkpoint 1 is complete but its file is still being written when runner 1 is
+		// lost; the new deployment is decided from "none"; the file is written while the Deploy calls are out; operators
+		// AND the source splitter must be started from "none" (seeded change C15-5 reads the checkpoint twice)
+		{Header: c15Header(1, 5, 0), Tags: []string{"one-checkpoint"}, Ops: []string{
+			"reg o 0", "reg s 1", "deployok", "holdpub", "tick", "ack s 1 1", "bar 0 1 1", "st", "dereg s 1", "reg s 2", "relpub", "st",
+			"deployok", "tick", "ack s 2 2", "bar 0 2 2", "dereg s 2", "reg s 3", "deployok", "st"}},
+		{Header: c15Header(2, 5, 4), Tags: []string{"one-checkpoint"}, Ops: []string{
+			"reg o 0", "reg o 1", "reg s 2", "reg s 3", "deployok", "holdpub", "tick", "ack s 2 5", "ack s 3 5", "bar 0 2 5", "bar 0 3 5",
+			"bar 1 2 5", "bar 1 3 5", "tick", "ack s 2 6", "dereg o 1", "reg o 4", "relpub", "deployok", "st"}},
 		// D45 (open finding): an event queued at surviving operator 0 in the first deployment is handed to the handler in
 		// the second one, on the restored state
 		{Header: c15Header(2, 5, 0), Tags: []string{"D45"}, Ops: []string{
